@@ -281,7 +281,7 @@ func handleTaskError(span trace.Span, task *proto.Task, err error) (*proto.TxRes
 	logger.Logger().Errorf("%s: %s: %s", task.GetMethod(), task.GetId(), err)
 	span.SetStatus(codes.Error, err.Error())
 
-	ee := proto.ResponseError{Error: err.Error()}
+	ee := proto.ResponseError{Error: validErrorText(err)}
 	return &proto.TxResponse{Id: []byte(task.GetId()), Method: task.GetMethod(), Error: &ee},
 		&proto.BatchTxEvent{Id: []byte(task.GetId()), Method: task.GetMethod(), Error: &ee}
 }
